@@ -85,6 +85,7 @@ def main(argv=None):
             results = [_run_unit_idx(j) for j in jobs]
 
     violations, known_hits, undecided, crashes = [], [], [], []
+    skipped_open = {}
     seen_what, dup_paths = set(), {}
     n_obl = n_dis = 0
     solver_ms = 0
@@ -118,6 +119,9 @@ def main(argv=None):
             if o["verdict"] == "discharged":
                 n_dis += 1
             elif o["verdict"] == "unknown":
+                if o.get("solver") == "skipped":
+                    skipped_open[r["unit"]] = skipped_open.get(r["unit"], 0) + 1
+                    continue
                 undecided.append(f"{r['unit']}: {o['label']} [{o['path']}]: {o.get('reason')}")
             else:
                 what = f"{r['unit']}::{o['label']}"
@@ -248,6 +252,8 @@ def main(argv=None):
         print(f"VIOLATION property={prop} replay={path}{tail}")
     for u in undecided:
         print(f"UNDECIDED property={prop} {u}")
+    for unit_name, cnt in skipped_open.items():
+        print(f"UNDECIDED property={prop} {unit_name}: {cnt} further obligations not attempted (the unit already has open obligations)")
     for c in crashes:
         print(f"CHECKER-CRASH property={prop} {c}")
     print(f"{prop}: {n_dis}/{n_obl} obligations discharged, {len(results)} units, "
